@@ -4,6 +4,7 @@ import (
 	"fmt"
 	"reflect"
 	"strings"
+	"sync"
 	"sync/atomic"
 	"time"
 
@@ -24,7 +25,8 @@ const (
 
 type FlowControlCache interface {
 	FlowControl() RemoteFlowControlWrapper
-	EnableRemoteFlowControl()
+	// EnableRemoteFlowControl returns the remote flow control, creating it first if necessary.
+	EnableRemoteFlowControl() RemoteFlowControlWrapper
 	LocalFlowControl() LocalFlowControlWrapper
 	Strategy() proxyv1alpha1.LimitStrategy
 	Rate() float64
@@ -76,10 +78,13 @@ func NewFlowControlCache(cluster, name, clientID string, globalCounterProvider G
 }
 
 type flowControlCache struct {
-	local   *localWrapper
-	remote  *remoteWrapper
-	cluster string
-	name    string
+	local *localWrapper
+	// remote is created by the reconcile loop, dropped by a spec sync that turns the
+	// global strategy off and read by every request
+	remoteLock sync.RWMutex
+	remote     *remoteWrapper
+	cluster    string
+	name       string
 
 	globalCounter GlobalCounterProvider
 	meter         *util.Meter
@@ -88,14 +93,18 @@ type flowControlCache struct {
 }
 
 func (f *flowControlCache) FlowControl() RemoteFlowControlWrapper {
-	if f.remote == nil {
+	f.remoteLock.RLock()
+	remote := f.remote
+	f.remoteLock.RUnlock()
+	if remote == nil {
 		return nil
 	}
-	return f.remote
-
+	return remote
 }
 
-func (f *flowControlCache) EnableRemoteFlowControl() {
+func (f *flowControlCache) EnableRemoteFlowControl() RemoteFlowControlWrapper {
+	f.remoteLock.Lock()
+	defer f.remoteLock.Unlock()
 	if f.remote == nil {
 		stopCh := make(chan struct{})
 		f.remote = &remoteWrapper{
@@ -103,6 +112,7 @@ func (f *flowControlCache) EnableRemoteFlowControl() {
 			stopCh:           stopCh,
 		}
 	}
+	return f.remote
 }
 
 func (f *flowControlCache) LocalFlowControl() LocalFlowControlWrapper {
@@ -127,12 +137,16 @@ func (f *flowControlCache) MaxInflight() int32 {
 
 func (f *flowControlCache) Stop() {
 	f.meter.Stop()
+	f.remoteLock.RLock()
+	defer f.remoteLock.RUnlock()
 	if f.remote != nil {
 		close(f.remote.stopCh)
 	}
 }
 
 func (f *flowControlCache) stopRemoteWrapper() {
+	f.remoteLock.Lock()
+	defer f.remoteLock.Unlock()
 	if f.remote != nil {
 		close(f.remote.stopCh)
 	}
@@ -298,6 +312,14 @@ func (f *remoteWrapper) ExpectToken() int32 {
 		return f.GlobalCounterFlowControl.ExpectToken()
 	}
 	return -1
+}
+
+// AddAcquiring is reached by the acquire worker as soon as the counter is registered,
+// which happens in newFlowControl, i.e. before the limiter is stored in the wrapper.
+func (f *remoteWrapper) AddAcquiring(n int32) {
+	if f.GlobalCounterFlowControl != nil {
+		f.GlobalCounterFlowControl.AddAcquiring(n)
+	}
 }
 
 func (f *remoteWrapper) CurrentToken() int32 {
